@@ -360,6 +360,7 @@ POPS = ['profile', 'profile_error', 'data_profile', 'normalization_value', "norm
         'calc_ee_at_radius(r)', 'calc_radius_at_ee(ee)', 'area', 'radius', 'data_radius']
 PKEYS = ['profile', 'profile_error', 'data_profile']
 PMUT = (4, 5, 6)
+P_BADCALL = 999      # a call that raises: the fresh object never sees it
 P_EE_R = np.array([0.25, 0.75, 1.5, 2.25, 3.0, 10.0])
 P_EE_V = np.array([0.1, 0.5, 0.9, 5.0, 50.0, 400.0])
 
@@ -377,6 +378,8 @@ def prof_alphabet(cfg):
 
 
 def pop_name(cfg, op):
+    if op == P_BADCALL:
+        return "normalize('no-such-method')"
     return POPS[op] if op < len(POPS) else PEXTRA[cfg['cls']][op - len(POPS)]
 
 
@@ -423,6 +426,9 @@ def prof_apply(obj, op):
     """returns (exc, value) of one operation"""
     try:
         with Quiet():
+            if op == P_BADCALL:          # normalize(method='no-such-method'): raises ValueError, changes nothing
+                obj.normalize('no-such-method')
+                return 0, None
             if op >= len(POPS):
                 return 0, getattr(obj, PEXTRA[type(obj).__name__][op - len(POPS)])
             if op <= 3 or op >= 9:
@@ -498,6 +504,10 @@ def prof_run(cfg, hist, cache):
         elif op == 6:
             normalized = False
         exc, v = prof_apply(obj, op)
+        if op == P_BADCALL:
+            if exc != 2:
+                bad.append((k, pop_name(cfg, op), f'gives code {exc} instead of raising ValueError'))
+            continue
         if is_pread(op) and exc == 0 and op <= 3:
             want = prof_expected_kind(cfg, op, normalized, cache)
             if want is not None and kind_of(v) != want:
@@ -558,7 +568,7 @@ def section_prof(ctx, cases, meta):
         hists = []
         for _ in range(nh):
             n = rng.randint(1, 8)
-            hists.append([rng.choice([0, 1, 2, 3, 4, 4, 5, 6, 6, 7, 8, 9, 10, 11, 12 + rng.randrange(nextra)])
+            hists.append([rng.choice([0, 1, 2, 3, 4, 4, 5, 6, 6, 7, 8, 9, 10, 11, 12 + rng.randrange(nextra), P_BADCALL])
                           for _ in range(n)])
         hists += [[4, 2, 6, 2], [2, 4, 2, 6, 2], [5, 0, 1, 2, 3], [4, 5, 6, 0, 2], [7, 4, 7, 8, 6, 7, 8],
                   [4, 0, 1, 3, 6, 0, 1, 2]]
@@ -587,7 +597,8 @@ def section_prof(ctx, cases, meta):
 
 def replay_prof(r):
     ex = prof_alphabet(r['config'])
-    h = [POPS.index(a) if a in POPS else len(POPS) + ex.index(a) for a in r['history']]
+    h = [P_BADCALL if a.startswith("normalize('no-such") else POPS.index(a) if a in POPS else len(POPS) + ex.index(a)
+         for a in r['history']]
     obs, bad = prof_run(r['config'], h, {})
     for (k, name, what) in bad:
         print(f'step {k}: {name} {what}')
@@ -655,6 +666,8 @@ def ap_decode(v):
 
 
 def ap_read(obj, a):
+    if a == 11:          # raises ValueError before touching any lazyproperty
+        return obj.to_mask(method='no-such-method')
     if a < 8:
         return getattr(obj, ALAZY[a])
     m, sub = AMETH[a - 8]
@@ -706,6 +719,10 @@ def ap_run(clsname, init, ops):
                     v = ap_read(obj, a)
             except Exception as e:  # noqa
                 exc = exc_code(e)
+            if a == 11:       # a read that raises for a fresh aperture too; it must leave no trace
+                if exc != 2:
+                    bad.append((k, "to_mask('no-such-method')", f'gives code {exc} instead of raising ValueError'))
+                continue
             with Quiet():
                 fr = ap_read(cls(**{n: ap_decode(x) for n, x in cur.items()}), a)
             eqf = exc == 0 and same(v, fr)
@@ -737,7 +754,7 @@ def ap_history(rng, clsname):
         elif rng.random() < 0.12:
             ops.append(('get', rng.randrange(8)))
         else:
-            ops.append(('read', rng.choice([0, 1, 2, 3, 4, 5, 5, 6, 7, 7, 8, 9, 10])))
+            ops.append(('read', rng.choice([0, 1, 2, 3, 4, 5, 5, 6, 7, 7, 8, 9, 10, 11])))
     return init, ops
 
 
@@ -830,15 +847,25 @@ def psf_image(d):
     return _IMG[d].copy()
 
 
-def psf_table(d, ini, tab):
-    """ini 0: None; 1: table; 2: table with a group_id column.  tab selects the extra columns."""
+def psf_table(d, ini, tab, jit=0, reuse_tab=None):
+    """ini 0: None; 1: table; 2: table with a group_id column; 3: one source off the image.  tab selects the extra
+    columns, jit shifts the initial positions by jit/8 pixel.  reuse_tab: a table object built earlier for the
+    same (d, ini, tab) that is EDITED IN PLACE to the requested contents instead of building a new one."""
     from astropy.table import Table
     if ini == 0:
         return None
     src = PSF_SCENES[d]
+    xs = [s[0] + 0.25 + 0.125 * jit for s in src]
+    ys = [s[1] - 0.25 for s in src]
+    if ini == 3:      # one source far outside the image: the call raises ValueError half-way
+        xs[0] = 200.0
+    if reuse_tab is not None:
+        reuse_tab['x'][:] = xs
+        reuse_tab['y'][:] = ys
+        return reuse_tab
     t = Table()
-    t['x'] = [s[0] + 0.25 for s in src]
-    t['y'] = [s[1] - 0.25 for s in src]
+    t['x'] = xs
+    t['y'] = ys
     if tab & 1:
         t['flux'] = [s[2] * 0.9 for s in src]
     if tab & 2:
@@ -847,9 +874,45 @@ def psf_table(d, ini, tab):
         t['fwhm'] = [3.5, 3.25, 3.75, 2.75][:len(src)]
     if ini == 2:
         t['group_id'] = [1] * len(src) if tab & 4 else list(range(len(src), 0, -1))
-    if ini == 3:      # one source far outside the image: the call raises ValueError half-way
-        t['x'][0] = 200.0
     return t
+
+
+def psf_norm(op):
+    """a call: (image, init kind, columns, error kind, mask kind, re-use buffers, position jitter)
+    error kind 0 none / 1 constant / 2 a ZERO inside the fit box of the last source / 3 a NaN inside the fit box of
+    the first source (both make the fit loop raise part-way);  mask kind 0 none / 1 a harmless corner / 2 the whole
+    fit box of the second source (raises inside the loop when init_params are given)."""
+    op = tuple(op)
+    return op + (0,) * (7 - len(op))
+
+
+def psf_error(d, ek):
+    if ek == 0:
+        return None
+    err = np.full((31, 31), 0.125)
+    src = PSF_SCENES[d]
+    if ek == 2 and src:
+        err[int(round(src[-1][1])), int(round(src[-1][0]))] = 0.0
+    if ek == 3 and src:
+        err[int(round(src[0][1])) + 1, int(round(src[0][0]))] = np.nan
+    return err
+
+
+def psf_mask(d, mk):
+    if mk == 0:
+        return None
+    m = np.zeros((31, 31), bool)
+    m[0:2, 0:2] = True
+    src = PSF_SCENES[d]
+    if mk == 2 and len(src) > 1:
+        x, y = int(round(src[1][0])), int(round(src[1][1]))
+        m[max(y - 4, 0):y + 5, max(x - 4, 0):x + 5] = True
+    return m
+
+
+def psf_may_raise(op):
+    op = psf_norm(op)
+    return op[1] == 3 or op[3] >= 2 or op[4] == 2
 
 
 def psf_make(cfg, shared=None):
@@ -877,10 +940,28 @@ def psf_make(cfg, shared=None):
     return obj
 
 
-def psf_call(obj, d, ini, tab):
+def psf_call(obj, d, ini, tab, ek=0, mk=0, reuse=0, jit=0, bufs=None):
+    """bufs (with reuse): the data / error / mask arrays and the init_params tables handed over by earlier calls
+    are refilled IN PLACE and passed again (same objects, new contents)"""
+    data, err, mask = psf_image(d), psf_error(d, ek), psf_mask(d, mk)
+    rt = None
+    if reuse and bufs is not None:
+        for name, arr in (('data', data), ('err', err), ('mask', mask)):
+            if arr is not None:
+                if name in bufs:
+                    bufs[name][...] = arr
+                else:
+                    bufs[name] = arr
+        data = bufs['data']
+        err = None if err is None else bufs['err']
+        mask = None if mask is None else bufs['mask']
+        rt = bufs.get(('tab', d, ini, tab))
     try:
         with Quiet():
-            res = obj(psf_image(d), init_params=psf_table(d, ini, tab))
+            t = psf_table(d, ini, tab, jit, rt)
+            if reuse and bufs is not None and t is not None:
+                bufs[('tab', d, ini, tab)] = t
+            res = obj(data, mask=mask, error=err, init_params=t)
         return 0, res
     except Exception as e:  # noqa
         return exc_code(e), None
@@ -942,6 +1023,7 @@ def psf_run(cfg, hist, cache):
         obj = psf_make(cfg)
     obs, bad = [], []
     calls = []
+    bufs = {}
     for k, op in enumerate(hist):
         op = tuple(op)
         if is_img(op):
@@ -952,7 +1034,7 @@ def psf_run(cfg, hist, cache):
                 with Quiet():
                     f = psf_make(cfg)
                 for c in calls:
-                    psf_call(f, *c)
+                    psf_call(f, c[0], c[1], c[2], c[3], c[4], 0, c[6])
                 cache[key] = psf_read(f, op, last_d)
             fexc, fv = cache[key]
             name = (f'attribute {op[2]}' if op[1] == 'attr' else
@@ -964,15 +1046,16 @@ def psf_run(cfg, hist, cache):
                 bad.append((k, f'READ: {name} differs from a fresh object\'s after the same calls (without the '
                                f'earlier reads)'))
             continue
-        d, ini, tab = op
+        op = psf_norm(op)
+        d, ini, tab, ek, mk, reuse, jit = op
         calls.append(op)
-        exc, res = psf_call(obj, d, ini, tab)
+        exc, res = psf_call(obj, d, ini, tab, ek, mk, reuse, jit, bufs)
         extra = psf_extra(obj) if exc == 0 else None
-        key = (d, ini, tab)
-        if key not in cache:
+        key = (d, ini, tab, ek, mk, jit)
+        if key not in cache:            # a fresh object, called once, on copies of the current contents
             with Quiet():
                 f = psf_make(cfg)
-            fe, fr = psf_call(f, d, ini, tab)
+            fe, fr = psf_call(f, d, ini, tab, ek, mk, 0, jit)
             cache[key] = (fe, fr, psf_extra(f) if fe == 0 else None)
         fexc, fres, fextra = cache[key]
         eqf = exc == 0 and fexc == 0 and same(res, fres)
@@ -988,14 +1071,16 @@ def psf_run(cfg, hist, cache):
         if not same(np.array(p.psf_model.parameters), obj._c09_model0):
             bad.append((k, f'MODEL: the parameters of the psf_model given to the constructor were overwritten: '
                            f'{obj._c09_model0.tolist()} -> {np.array(p.psf_model.parameters).tolist()}'))
-        obs.append((d, ini, tab, (exc, res is None, eqf),
-                    (p.grouper is None, p.results is None, p.finder_results is None)))
+        if not psf_may_raise(op):       # the Coq machine has no branch for calls failing inside the fit loop; its
+            # prediction for the other calls does not depend on them (every call starts with a reset)
+            obs.append((d, ini, tab * 2 + jit, (exc, res is None, eqf),
+                        (p.grouper is None, p.results is None, p.finder_results is None)))
     return obs, bad
 
 
 def section_psf(ctx, cases, meta):
     rng = ctx.rng
-    nh = 6 if ctx.tier == 'quick' else 12
+    nh = 4 if ctx.tier == 'quick' else 12
     cfgs = []
     for finder, grouper, localbkg in itertools.product([True, False], [True, False], [True, False]):
         # models with / without a free shape parameter, with / without position bounds
@@ -1011,6 +1096,13 @@ def section_psf(ctx, cases, meta):
         cache = {}
         hists = [[(0, 2, 0), (0, 1, 0), (0, 0, 0)] if cfg['finder'] else [(0, 2, 0), (0, 1, 0), (0, 1, 1)]]
         hists.append([(0, 1, 8), (0, 1, 0), (1, 1, 9), (1, 1, 1)])      # column sets differing from call to call
+        # calls raising at different depths (validation, inside the fit loop), then normal calls and reads
+        i0 = 0 if cfg['finder'] else 1
+        hists.append([(0, 1, 1, 2), (0, 1, 1, 1), ('img', 'attr', 'results', 0), (0, i0, 0, 3), (0, i0, 0, 0),
+                      (2, 1, 3, 0, 2), (2, 1, 3, 0, 1), (1, 3, 0)])
+        # one data / error / mask buffer and one init_params table re-used, contents replaced in place
+        hists.append([(0, 1, 1, 1, 1, 1, 0), (1, 1, 1, 1, 1, 1, 0), (1, 1, 1, 1, 1, 1, 1), (0, i0, 0, 0, 0, 1, 0),
+                      (2, i0, 0, 0, 0, 1, 0), (0, 1, 1, 2, 0, 1, 0), (0, 1, 1, 1, 0, 1, 1)])
 
         attrs = psf_alphabet(cfg)
 
@@ -1023,7 +1115,7 @@ def section_psf(ctx, cases, meta):
         first = (0, 0, 0) if cfg['finder'] else (0, 1, 2)
         hists.append([first, ('img', 'model', 1, True), ('img', 'model', 1, False), ('img', 'residual', 1, False),
                       ('img', 'residual', 1, True), (1, 1, 2), ('img', 'model', 2, False), ('img', 'model', 2, True)])
-        for _ in range(2 if ctx.tier == 'quick' else 6):
+        for _ in range(1 if ctx.tier == 'quick' else 6):
             h = [img_read()] if rng.random() < 0.2 else []
             for _ in range(rng.randint(1, 2)):
                 ini = rng.choice([0, 1, 2]) if cfg['finder'] else rng.choice([1, 2])
@@ -1037,7 +1129,11 @@ def section_psf(ctx, cases, meta):
                 if rng.random() < 0.08:
                     ini = 3
                 d = rng.choice([0, 1, 2, -1]) if ini == 0 else rng.choice([0, 1, 2])
-                h.append((d, ini, rng.randrange(16) if ini else 0))
+                ek = rng.choice([0, 0, 1, 1, 2, 3]) if rng.random() < 0.5 else 0
+                mk = rng.choice([0, 1, 1, 2]) if rng.random() < 0.35 else 0
+                h.append((d, ini, rng.randrange(16) if ini else 0, ek, mk, 0, 0))
+            if rng.random() < 0.4:          # this history re-uses its buffers (and edits its tables in place)
+                h = [c[:5] + (1, rng.randrange(2)) for c in h]
             hists.append(h)
         for h in hists:
             obs, bad = psf_run(cfg, h, cache)
@@ -1054,12 +1150,13 @@ def section_psf(ctx, cases, meta):
                 report(ctx, sig,
                               f"{desc['machine']} call {k} {what}; calls (image, init_params kind, columns) = {h[:k + 1]}",
                               dict(desc, step=k, cmd='bin/check C09 --replay <this file>'))
-            raising = any((not is_img(c)) and c[1] == 3 for c in h)
-            if raising:
-                ctx.stat('psf', 'histories with a call raising half-way (direct oracle only)')
+            if any((not is_img(c)) and psf_may_raise(c) for c in h):
+                ctx.stat('psf', 'histories with calls raising half-way / inside the fit loop')
+            if any((not is_img(c)) and psf_norm(c)[5] for c in h):
+                ctx.stat('psf', 'histories re-using data / error / mask / init_params objects refilled in place')
             if any(is_img(c) for c in h):
                 ctx.stat('psf', 'histories with make_model_image / make_residual_image reads')
-            if not raising and not cfg['iterative'] and obs:
+            if not cfg['iterative'] and obs:
                 cases.append(f"CPsf {coq(cfg['finder'])} {coq(cfg['grouper'])} {coq(obs)}")
                 meta.append(('psf', desc, bool(bad)))
     ctx.sample({'machine': 'PSFPhotometry', 'config': cfgs[0], 'calls': [[0, 2, 0], [0, 1, 0], [0, 0, 0]]})
@@ -1088,52 +1185,93 @@ def finder_make(kind):
     return obj
 
 
+def finder_args(call):
+    """a call: (image, mask kind, bad): mask kind 0 none / 1 the upper half masked / 2 a mask of the wrong shape
+    (raises after the convolution); bad 1 = a 1-D 'image' (raises inside the convolution)"""
+    d, mk, badarg = call
+    data = np.ones(31) if badarg else psf_image(d)
+    mask = None
+    if mk == 1:
+        mask = np.zeros((31, 31), bool)
+        mask[16:, :] = True
+    elif mk == 2:
+        mask = np.zeros((5, 5), bool)
+    return data, mask
+
+
+def finder_call(obj, data, mask, use_call):
+    try:
+        with Quiet():
+            return 0, (obj(data, mask=mask) if use_call else obj.find_stars(data, mask=mask))
+    except Exception as e:  # noqa
+        return exc_code(e), None
+
+
+def finder_run(kind, h, reuse, use_call, fresh):
+    """h: calls; reuse: ONE image buffer and ONE mask buffer are handed over by every call, their contents replaced
+    in place between the calls.  Every call is compared with a fresh finder on copies of the current contents."""
+    with Quiet():
+        obj = finder_make(kind)
+    bad = []
+    bufs = {}
+    for k, call in enumerate(h):
+        call = tuple(call)
+        data, mask = finder_args(call)
+        if reuse:
+            for name, arr in (('data', data), ('mask', mask)):
+                if arr is not None and name in bufs and bufs[name].shape == arr.shape:
+                    bufs[name][...] = arr
+                elif arr is not None:
+                    bufs[name] = arr
+            data = bufs['data']
+            mask = None if mask is None else bufs['mask']
+        exc, res = finder_call(obj, data, mask, use_call[k])
+        if kind == 'StarFinder' and not same(np.array(obj.kernel), obj._c09_kernel0):
+            bad.append((k, 'KERNEL', 'StarFinder.kernel differs from the kernel given to the constructor'))
+        if call not in fresh:
+            fd, fm = finder_args(call)
+            fresh[call] = finder_call(finder_make(kind), fd, fm, False)
+        fexc, fres = fresh[call]
+        if exc != fexc:
+            bad.append((k, 'CALL', f'raises (code {exc}) where a fresh finder gives code {fexc}'))
+        elif exc == 0 and not same(res, fres):
+            bad.append((k, 'CALL', 'differs from a fresh finder on a copy of the same contents'))
+    return bad
+
+
 def section_finders(ctx):
     rng = ctx.rng
-    n = 6 if ctx.tier == 'quick' else 15
+    n = 8 if ctx.tier == 'quick' else 20
     for kind in ['DAOStarFinder', 'IRAFStarFinder', 'StarFinder']:
         fresh = {}
+        plans = [([(0, 0, 0), (1, 0, 0), (1, 1, 0), (0, 1, 0), (2, 0, 0), (-1, 0, 0), (0, 0, 0)], True),
+                 ([(0, 0, 0), (0, 2, 0), (0, 0, 0), (1, 0, 1), (1, 0, 0), (-1, 0, 0), (2, 1, 0)], False)]
         for _ in range(n):
-            h = [rng.choice([0, 1, 2, -1]) for _ in range(rng.randint(2, 6))]
-            with Quiet():
-                obj = finder_make(kind)
-            desc = {'machine': kind, 'images': h}
+            h = []
+            for _ in range(rng.randint(2, 7)):
+                r = rng.random()
+                h.append((rng.choice([0, 1, 2, -1]), 2 if r < 0.08 else rng.choice([0, 0, 1]), 1 if 0.08 <= r < 0.15 else 0))
+            plans.append((h, rng.random() < 0.5))
+        for h, reuse in plans:
+            use_call = [rng.random() < 0.5 for _ in h]
+            bad = finder_run(kind, h, reuse, use_call, fresh)
+            desc = {'machine': kind, 'calls': [list(c) for c in h], 'reuse_buffers': reuse, 'use_call': use_call}
             ctx.count_case(desc, len(set(h)) > 1)
-            ctx.stat('finders', kind)
-            kernels = []
-            for k, d in enumerate(h):
-                exc, res = 0, None
-                try:
-                    with Quiet():
-                        res = obj(psf_image(d)) if rng.random() < 0.5 else obj.find_stars(psf_image(d))
-                except Exception as e:  # noqa
-                    exc = exc_code(e)
-                if kind == 'StarFinder':
-                    # the model's state component: the kernel attribute is only read (starfinder_calls_fresh)
-                    ctx.support('StarFinder.kernel unchanged by a call (bitwise)')
-                    if not same(np.array(obj.kernel), obj._c09_kernel0):
-                        report(ctx, 'StarFinder.kernel:modified-by-call',
-                                      f'StarFinder.kernel after call {k} differs from the kernel given to the constructor',
-                                      dict(desc, step=k))
-                if d not in fresh:
-                    with Quiet():
-                        fresh[d] = finder_make(kind).find_stars(psf_image(d))
-                if exc or not same(res, fresh[d]):
-                    report(ctx, f'{kind}.find_stars:repeated-call',
-                                  f'{kind} call {k} on image {d} ' + ('raises' if exc else 'differs from a fresh finder') +
-                                  f' after images {h[:k]}', dict(desc, step=k))
+            ctx.stat('finders', f"{kind},{'one buffer refilled in place' if reuse else 'new arrays'}")
+            if kind == 'StarFinder':
+                ctx.support('StarFinder.kernel unchanged by a call (bitwise)', len(h))
+            for (k, what, text) in bad:
+                sig = 'StarFinder.kernel:modified-by-call' if what == 'KERNEL' else f'{kind}.find_stars:repeated-call'
+                report(ctx, sig, f'{kind} call {k} {text}; calls (image, mask kind, bad argument) = {h[:k + 1]}'
+                                 + ('; the image / mask buffers are re-used, refilled in place' if reuse else ''),
+                       dict(desc, step=k, cmd='bin/check C09 --replay <this file>'))
 
 
 def replay_finder(r):
-    bad = []
-    obj = finder_make(r['machine'])
-    for k, d in enumerate(r['images']):
-        with Quiet():
-            res = obj.find_stars(psf_image(d))
-            fr = finder_make(r['machine']).find_stars(psf_image(d))
-        if not same(res, fr):
-            bad.append(k)
-            print(f'call {k}: differs from a fresh finder')
+    calls = r.get('calls') or [[d, 0, 0] for d in r['images']]
+    bad = finder_run(r['machine'], calls, r.get('reuse_buffers', False), r.get('use_call', [False] * len(calls)), {})
+    for (k, what, text) in bad:
+        print(f'call {k}: {text}')
     return bad
 
 
@@ -1156,7 +1294,7 @@ ISO_SMA = [7.0, 11.0]
 ISO_KEYS = ('sma', 'intens', 'eps', 'pa', 'x0', 'y0', 'stop_code', 'niter', 'valid')
 
 
-def ell_make(g0, persisted=None):
+def ell_make(g0, persisted=None, version=0):
     """persisted: (linear_growth, fix) left on the geometry by earlier calls (the known finding), applied to a
     fresh object to decide whether a difference is explained by it"""
     from photutils.isophote import Ellipse, EllipseGeometry
@@ -1166,7 +1304,15 @@ def ell_make(g0, persisted=None):
     if persisted is not None:
         geo.linear_growth = persisted[0]
         geo.fix = np.array(persisted[1])
-    return Ellipse(galaxy(), geo), geo
+    img = ell_image(version)          # a private buffer: Ellipse keeps a reference to it
+    e = Ellipse(img, geo)
+    e._c09_img = img
+    return e, geo
+
+
+def ell_image(version):
+    g = galaxy()
+    return [g.copy(), g * 2.0, g + 50.0][version]
 
 
 def geo_snapshot(geo):
@@ -1174,9 +1320,11 @@ def geo_snapshot(geo):
 
 
 def ell_norm(a):
-    """calls: ('image', linear 0/1/2, fix_center, fix_pa, fix_eps, sma0 index) or ('iso', sma index)"""
+    """calls: ('image', linear 0/1/2, fix_center, fix_pa, fix_eps, sma0 index), ('iso', sma index),
+    ('image_bad',): fit_image with an unknown integrmode (raises part-way), and ('refill', version): the image array
+    given to the constructor gets new contents IN PLACE (expected afterwards: a fresh Ellipse on a copy of them)"""
     a = tuple(a)
-    if a[0] == 'iso':
+    if a[0] in ('iso', 'refill', 'image_bad'):
         return a
     if a[0] != 'image':                    # old replays: (linear, fc, fp, fe)
         a = ('image',) + a
@@ -1193,6 +1341,9 @@ def ell_call(e, a):
         if a[0] == 'iso':
             iso = e.fit_isophote(ISO_SMA[a[1]])
             return iso_key(iso), iso
+        if a[0] == 'image_bad':
+            il = e.fit_image(maxsma=14.0, minsma=5.0, step=0.35, integrmode='no-such-mode')
+            return il.to_table(), il
         _, lin, fc, fp, fe, si = a
         il = e.fit_image(sma0=ELL_SMA0[si], maxsma=14.0, minsma=5.0, step=0.35 if lin != 2 else 2.0,
                          linear={0: None, 1: False, 2: True}[lin], fix_center=bool(fc), fix_pa=bool(fp),
@@ -1214,16 +1365,29 @@ def ell_run(g0, calls, cache):
     geo0 = geo_snapshot(geo)
     lin0, fix0 = bool(g0['lin']), [bool(x) for x in g0['fix']]
     obs, bad, earlier = [], [], []
+    version = 0
     for k, a in enumerate(calls):
         a = ell_norm(a)
+        if a[0] == 'refill':
+            version = a[1]
+            e._c09_img[...] = ell_image(version)
+            continue
         before = (bool(geo.linear_growth), [bool(x) for x in geo.fix])
         exc, t, live = 0, None, None
         try:
             t, live = ell_call(e, a)
         except Exception as ex:  # noqa
             exc = exc_code(ex)
-        if a not in cache:
-            cache[a] = ell_call(ell_make(g0)[0], a)[0]
+        ck = (a, version)
+        if ck not in cache:
+            try:
+                cache[ck] = (0, ell_call(ell_make(g0, None, version)[0], a)[0])
+            except Exception as ex:  # noqa
+                cache[ck] = (exc_code(ex), None)
+        fexc, ft = cache[ck]
+        if exc and exc == fexc:          # a call that raises for a fresh object too: nothing to compare, but
+            continue                     # every later call must still equal a fresh object's
+        cache[a] = ft
         eqf = exc == 0 and same(t, cache[a])
         name = 'fit_isophote' if a[0] == 'iso' else 'fit_image'
         if exc:
@@ -1231,9 +1395,9 @@ def ell_run(g0, calls, cache):
         elif not eqf:
             explained = False
             if before != (lin0, fix0):
-                key = ('persisted', before[0], tuple(before[1]), a)
+                key = ('persisted', before[0], tuple(before[1]), a, version)
                 if key not in cache:
-                    cache[key] = ell_call(ell_make(g0, before)[0], a)[0]
+                    cache[key] = ell_call(ell_make(g0, before, version)[0], a)[0]
                 explained = same(t, cache[key])
             if explained:
                 bad.append((k, 'known', f'{name} result differs from a fresh Ellipse object\'s (explained by the '
@@ -1278,12 +1442,19 @@ def section_ellipse(ctx, cases, meta):
         hists = [[('image', 0, True, False, False, 0), ('image', 0, False, False, False, 0)],
                  # different starting semimajor axes, default afterwards; single isophotes in between
                  [('image', 0, False, False, False, 2), ('image', 0, False, False, False, 0), ('iso', 1),
-                  ('image', 0, False, False, False, 0), ('iso', 0), ('iso', 1)]]
+                  ('image', 0, False, False, False, 0), ('iso', 0), ('iso', 1)],
+                 # a call raising part-way, and the constructor's image array refilled in place between calls
+                 [('image', 0, False, False, False, 0), ('image_bad',), ('image', 0, False, False, False, 0),
+                  ('refill', 1), ('image', 0, False, False, False, 0), ('iso', 0), ('refill', 2), ('iso', 0)]]
         for _ in range(nh):
             h = []
             for _ in range(rng.randint(2, 4 if ctx.tier == 'quick' else 8)):
-                if rng.random() < 0.25:
+                r = rng.random()
+                if r < 0.25:
                     h.append(('iso', rng.randrange(2)))
+                    continue
+                if r < 0.33:
+                    h.append(('image_bad',) if r < 0.29 else ('refill', rng.randrange(3)))
                     continue
                 fc, fp, fe = rng.choice([(False, False, False), (False, False, False), (True, False, False),
                                          (False, True, False), (False, False, True), (True, True, False),
@@ -1328,11 +1499,22 @@ def grid_make(cfg):
     return GriddedPSFModel(NDData(data, meta={'grid_xypos': pos, 'oversampling': cfg['os']}))
 
 
-def grid_eval(m, xy):
+def grid_eval(m, xy, bufs=None):
+    """bufs: the coordinate arrays handed over by the previous evaluation, refilled in place"""
     yy, xx = np.mgrid[0:7, 0:7]
-    x0, y0 = xy
+    x0, y0 = xy[0], xy[1]
+    x, y = xx + round(x0) - 3.0, yy + round(y0) - 3.0
+    if bufs is not None:
+        if 'x' in bufs:
+            bufs['x'][...] = x
+            bufs['y'][...] = y
+        else:
+            bufs['x'], bufs['y'] = x, y
+        x, y = bufs['x'], bufs['y']
+    if len(xy) > 2:          # an evaluation that raises: 3-D coordinate arrays
+        x, y = x[None, :, :] * np.ones((2, 1, 1)), y[None, :, :] * np.ones((2, 1, 1))
     with Quiet():
-        return m.evaluate(xx + round(x0) - 3.0, yy + round(y0) - 3.0, 2.0, x0, y0)
+        return m.evaluate(x, y, 2.0, x0, y0)
 
 
 GSCALE = 8        # grid positions are multiples of 1/4, evaluation positions multiples of 1/8
@@ -1343,12 +1525,17 @@ def grid_run(cfg, h, users_pick):
     m = grid_make(cfg)
     users = [m, m.copy()]            # copy() shares the _interpolator dictionary with the original
     obs, bad = [], []
+    bufs = {}
     for k, xy in enumerate(h):
         exc, v = 0, None
         try:
-            v = grid_eval(users[users_pick[k]], xy)
+            v = grid_eval(users[users_pick[k]], xy, bufs)
         except Exception as e:  # noqa
             exc = exc_code(e)
+        if len(xy) > 2:          # raises for a fresh model too; must leave no trace
+            if exc != 2:
+                bad.append((k, f'gives code {exc} instead of raising ValueError for 3-D coordinates'))
+            continue
         fv = grid_eval(grid_make(cfg), xy)
         eqf = exc == 0 and same(v, fv)
         if exc or not eqf:
@@ -1388,6 +1575,10 @@ def section_grid(ctx, cases, meta):
             h = (pts + pts[::-1])[:8]          # the same cells visited in both orders
         else:
             h = [rng.choice(pts) if rng.random() < 0.3 else point() for _ in range(rng.randint(1, 8))]
+        if len(h) > 1 and rng.random() < 0.3:
+            i = rng.randrange(len(h))
+            h = h[:i] + [h[i] + ('bad',)] + h[i:]
+            h = h[:8]
         pick = [0 if rng.random() < 0.7 else 1 for _ in h]
         obs, bad = grid_run(cfg, h, pick)
         desc = {'machine': 'GriddedPSFModel', 'config': cfg, 'xy': h, 'evaluated_on_copy': pick}
@@ -1687,6 +1878,8 @@ class ApObj:
                     v = ap_read(self.obj, a)
             except Exception as e:  # noqa
                 exc = exc_code(e)
+            if a == 11:
+                return None if exc == 2 else ("to_mask('no-such-method')", f'gives code {exc} instead of raising')
             with Quiet():
                 fr = ap_read(self.cls(**{n: self.dec(x) for n, x in self.cur.items()}), a)
             eqf = exc == 0 and same(v, fr)
@@ -1736,6 +1929,8 @@ def aper_scenario(rng):
                     q.append([j, 'read', rng.choice([3, 5, 7, 8, 10])])
                 if rng.random() < 0.2:
                     q.append([j, 'get', rng.randrange(8)])
+                if rng.random() < 0.1:
+                    q.append([j, 'read', 11])
                 if rng.random() < 0.15:
                     i2 = rng.randrange(len(names))
                     q.append([j, 'set', i2, ap_value(rng, names[i2], cur, False), False])
@@ -1833,7 +2028,15 @@ def run(ctx):
     ctx.build(FILES)
     snapshot_pristine()
     ctx.cov['rule'] = (
-        'histories of length <= 8 (reads / setter assignments / calls) on one real object per case; the READ alphabet '
+        'histories of length <= 8 (reads / setter assignments / calls) on one real object per case; every call '
+        'alphabet contains calls that RAISE at different depths (validation errors; PSF fits with a zero / NaN of the '
+        'error map inside a fit box, a fully masked source or a source off the image; finder calls with a 1-D image or '
+        'a mask of the wrong shape; fit_image with an unknown integrmode; normalize / to_mask with an unknown method; '
+        'evaluate with 3-D coordinates) and calls returning None, interleaved with normal calls and reads -- the '
+        'reference object never sees the failed request; in part of the histories of every callable machine ONE '
+        'image / error / mask / coordinate buffer and ONE init_params table are handed over by consecutive calls '
+        'with their contents replaced in place (Ellipse: the constructor\'s image array), expected = a fresh object '
+        'on copies of the current contents; the READ alphabet '
         'of Background2D, the profiles, the PSF machines and the apertures is derived from the object (every public '
         'non-callable attribute, deprecated accessors such as background_mesh_masked / mesh_nmasked / fit_results '
         'included, plot-free, gaussian_* excluded); over '
